@@ -64,11 +64,12 @@ Qed.
 Section DispAgree.
   Variable fmt : bytes -> option bytes.
   Variable order : pkginfo -> list (bytes * bytes) -> list (bytes * bytes).
+  Variable rk : pkginfo -> bytes -> nat.
   Variable G : tags.
   Variable wps : list wpkg.
   Variable fuel : nat.
 
-  Let E := whole_env fmt order G.
+  Let E := whole_env fmt order rk G.
   Notation gP := (disp_gen wps fuel).
 
   (* the call / callback events of the pipeline that correspond to Dispatch's *)
@@ -486,10 +487,10 @@ Proof. intros. unfold sorted_pkgs, sort_wps. cbn [w_pkgs to_world]. apply sort_b
 
 (* Dispatch.execute, run on the packages in the order Execute visits them, lists exactly the GenerateType /
    GenerateAliasType / Defer-callback events of Pipeline.exec_trace, in the same order, and ends the same way. *)
-Theorem dispatch_agree : forall fmt order G wps fuel gens a modroot s,
+Theorem dispatch_agree : forall fmt order rk G wps fuel gens a modroot s,
   NoDup (map wp_path wps) ->
   (forall src, fmt src <> None) ->
-  let E := whole_env fmt order G in
+  let E := whole_env fmt order rk G in
   let w := to_world modroot wps in
   (forall wp, In wp wps -> pkg_changed a w (load_prev E a w s) (to_pkginfo wp) = true) ->
   (forall wp g, In wp wps -> In g gens -> fuel_ok G fuel wp g) ->
@@ -498,9 +499,9 @@ Theorem dispatch_agree : forall fmt order G wps fuel gens a modroot s,
     /\ Forall2 (ev_match G wps gens) (exec_trace E a w (map (disp_gen wps fuel) gens) s) (filter DP.is_callback devs)
     /\ out_match (exec_outcome E a w (map (disp_gen wps fuel) gens) s) o.
 Proof.
-  intros fmt order G wps fuel gens a modroot s Hnd Hfmt E w Hchg Hfuel.
+  intros fmt order rk G wps fuel gens a modroot s Hnd Hfmt E w Hchg Hfuel.
   unfold exec_trace, exec_outcome, run_all. subst w. rewrite sorted_world. unfold disp_pkgs.
-  apply (run_pkgs_agree fmt order G wps fuel Hnd gens Hfmt a modroot _ Hchg Hfuel).
+  apply (run_pkgs_agree fmt order rk G wps fuel Hnd gens Hfmt a modroot _ Hchg Hfuel).
   intros x Hx. unfold sort_wps in Hx. exact (proj1 (sort_by_In wp_path wps x) Hx).
 Qed.
 
@@ -512,7 +513,7 @@ Require Import Gengo.Proofs.WholeTrace.
    C06_exactly_once (each enabled package-scope named type once with GenerateType; each enabled alias once with
    GenerateAliasType iff g is an AliasGenerator; nothing else), and every callback of the forest registered by
    those calls runs exactly once (the pipeline's callback indices are 0, 1, 2, ... in order). *)
-Theorem pipeline_exactly_once : forall fmt order G wps fuel gens a modroot s wp g,
+Theorem pipeline_exactly_once : forall fmt order rk G wps fuel gens a modroot s wp g,
   NoDup (map wp_path wps) -> In wp wps -> In g gens ->
   NoDup (D.keys G) -> NoDup (D.keys (P_of wp)) ->
   (forall d, In d (D.pk_defs (wp_d wp)) -> NoDup (D.keys (D.td_tags d))) ->
@@ -520,7 +521,7 @@ Theorem pipeline_exactly_once : forall fmt order G wps fuel gens a modroot s wp 
   (forall d, In d (D.pk_defs (wp_d wp)) -> D.td_action d <> D.AErr) ->
   (forall d, In d (D.pk_defs (wp_d wp)) -> forallb D.no_err_tree (D.td_defers d) = true) ->
   fuel_ok G fuel wp g ->
-  let E := whole_env fmt order G in
+  let E := whole_env fmt order rk G in
   let w := to_world modroot wps in
   let gs := map (disp_gen wps fuel) gens in
   exec_outcome E a w gs s = Done -> processed E a w s (to_pkginfo wp) = true ->
@@ -534,8 +535,8 @@ Theorem pipeline_exactly_once : forall fmt order G wps fuel gens a modroot s wp 
     /\ exec_trace E a w gs s
        = pre ++ (map (tr_call wp g) cs ++ map (tr_defer wp g) (combine (seq 0 (List.length ran)) ran)) ++ post.
 Proof.
-  intros fmt order G wps fuel gens a modroot s wp g Hnd Hwp Hg HG HP Htags Hnames Hnoerr Hdefok Hfuel E w gs Hdone Hproc.
-  destruct (gen_run_agree fmt order G wps fuel Hnd wp g Hwp Hfuel) as [cs [e [ran [e2 [Hdg [Hdefs [Hq [Ht _]]]]]]]].
+  intros fmt order rk G wps fuel gens a modroot s wp g Hnd Hwp Hg HG HP Htags Hnames Hnoerr Hdefok Hfuel E w gs Hdone Hproc.
+  destruct (gen_run_agree fmt order rk G wps fuel Hnd wp g Hwp Hfuel) as [cs [e [ran [e2 [Hdg [Hdefs [Hq [Ht _]]]]]]]].
   destruct (DP.exactly_once g G (P_of wp) (D.pk_defs (wp_d wp)) (D.pk_defs (wp_d wp))
               (D.keys (D.type_table true (D.pk_defs (wp_d wp)))) HG HP Htags Hnames
               (Permutation_refl _) (Permutation_refl _) Hnoerr) as [cs' [Hdg' [Hnd' Hiff]]].
